@@ -472,6 +472,11 @@ func runC20Timeout(s *kit.Session, c c20Case) *kit.Failure {
 			s.Observe(c, true, "kind_timeout", "shape_"+c.Shape)
 			return nil
 		}
+		if c.Shape == "tail-recursion" && r.finished && s.IsKnown("C20-timeout-overrun-after-tail-recursion") {
+			s.KnownHit("C20-timeout-overrun-after-tail-recursion", map[string]any{"shape": c.Shape, "wall_s": r.wall.Seconds(), "cpu_s": r.cpu.Seconds(), "script": c.Script})
+			s.Observe(c, true, "kind_timeout", "shape_"+c.Shape)
+			return nil
+		}
 		if attempt == 1 {
 			return &kit.Failure{Cause: "timeout-not-enforced", Msg: fmt.Sprintf("script %q with a 1 s timeout kept running: wall %.1f s, CPU %.1f s (finished=%v), twice in a row in a process of its own", c.Shape, r.wall.Seconds(), r.cpu.Seconds(), r.finished)}
 		}
